@@ -1,5 +1,8 @@
 (** K4, part 3: evaluation preserves the coverage invariant ([Good]) and
-    records every direct read of the specification evaluation in the graphs. *)
+    records every direct read of the specification evaluation in the graphs —
+    for every formula under which no failure occurred ([top_clean]); a formula
+    that ran over a failure (it may have handled it) is tainted and its value
+    is not kept, so nothing has to be recorded for it. *)
 From Coq Require Import List ZArith Bool Arith Lia.
 From MX Require Import Exec.Model Exec.Spec Exec.Basics Exec.SpecMono Exec.Sim Exec.Reads Exec.Cover Exec.Cover2.
 Import ListNotations.
@@ -7,48 +10,51 @@ Import ListNotations.
 Definition Ctx (st : state) (me : cid) (d : nat) : Prop :=
   exists key rest, s_stack st = (me, key) :: rest /\ d = List.length rest.
 
-Definition is_val {A} (r : res A) : bool := match r with Val _ => true | _ => false end.
+(** no failure has occurred under the formula on top of the stack *)
+Definition top_clean (st : state) : Prop := s_taint st < List.length (s_stack st).
 
-Definition Post (st st' : state) (isval : bool) (cov : Prop) : Prop :=
+Definition Post (st st' : state) (ok : Prop) (cov : Prop) : Prop :=
   s_reent st' = true \/
-  (Good st' /\ (isval = true -> Grow st st' /\ incl (s_refstack st) (s_refstack st') /\ cov)).
+  (Good st' /\ s_taint st <= s_taint st' /\
+   (ok -> top_clean st' -> Grow st st' /\ incl (s_refstack st) (s_refstack st') /\ cov)).
+
+Definition not_deep {A} (r : res A) : Prop := r <> Err KDeep.
 
 Definition sim2_expr (f : nat) : Prop :=
   forall st args locs line e r st' me d,
     eval_expr f st args locs line e = (r, st') -> r <> OutOfFuel ->
-    Good st -> defs_ok (s_cells st) -> s_reent st = false -> Ctx st me d ->
-    Post st st' (is_val r)
+    Good st -> s_reent st = false -> Ctx st me d ->
+    Post st st' (not_deep r)
       (forall g r' ds, dr_expr g (defs_of st) (input_data st) me args locs e = (r', ds) -> r' <> OutOfFuel ->
                        Forall (cov_pending st' (nearest_cached st (s_stack st)) me d) ds).
 Definition sim2_args (f : nat) : Prop :=
   forall st args locs line es r st' me d,
     eval_args f st args locs line es = (r, st') -> r <> OutOfFuel ->
-    Good st -> defs_ok (s_cells st) -> s_reent st = false -> Ctx st me d ->
-    Post st st' (is_val r)
+    Good st -> s_reent st = false -> Ctx st me d ->
+    Post st st' (not_deep r)
       (forall g r' ds, dr_args g (defs_of st) (input_data st) me args locs es = (r', ds) -> r' <> OutOfFuel ->
                        Forall (cov_pending st' (nearest_cached st (s_stack st)) me d) ds).
 Definition sim2_node (f : nat) : Prop :=
   forall st line i r st' me d,
     eval_node f st line i = (r, st') -> r <> OutOfFuel ->
-    Good st -> defs_ok (s_cells st) -> s_reent st = false -> d = List.length (s_stack st) - 1 ->
-    Post st st' (is_val r)
+    Good st -> s_reent st = false -> d = List.length (s_stack st) - 1 ->
+    Post st st' (not_deep r)
       (forall g r' ds, dr_node g (defs_of st) (input_data st) i = (r', ds) -> r' <> OutOfFuel ->
                        Forall (cov_pending st' (nearest_cached st (s_stack st)) me d) ds).
 Definition sim2_formula (f : nat) : Prop :=
   forall st cl i r st' me d,
     eval_formula f st cl i = (r, st') -> r <> OutOfFuel ->
-    Good st -> defs_ok (s_cells st) -> s_reent st = false -> d = List.length (s_stack st) - 1 ->
+    Good st -> s_reent st = false -> d = List.length (s_stack st) - 1 ->
     lookup_cell (s_cells st) (fst i) = Some cl ->
     (if cl_cached cl then lookup_data (s_data st) i else None) = None ->
-    Post st st' (is_val r)
+    Post st st' (not_deep r)
       (forall g r' ds, dr_node g (defs_of st) (input_data st) i = (r', ds) -> r' <> OutOfFuel ->
                        Forall (cov_pending st' (nearest_cached st (s_stack st)) me d) ds).
 Definition sim2_body (f : nat) : Prop :=
   forall st args locs whole rest idx r st' ln me d,
     exec_body f st args locs whole rest idx = (r, st', ln) -> r <> OutOfFuel ->
-    Good st -> defs_ok (s_cells st) -> s_reent st = false -> Ctx st me d ->
-    body_ok rest = true ->
-    Post st st' (is_val r)
+    Good st -> s_reent st = false -> Ctx st me d ->
+    Post st st' (not_deep r)
       (forall g r' ds, dr_body g (defs_of st) (input_data st) me args locs rest = (r', ds) -> r' <> OutOfFuel ->
                        Forall (cov_pending st' (nearest_cached st (s_stack st)) me d) ds).
 
@@ -82,9 +88,6 @@ Proof.
   intros (S & K & _). rewrite K. apply nearest_cached_cells. now apply static_cells.
 Qed.
 
-Lemma defs_ok_frame st st' : frame st st' -> defs_ok (s_cells st) -> defs_ok (s_cells st').
-Proof. intros (S & _) H. now rewrite (static_cells _ _ S). Qed.
-
 Lemma sp_expr_det g1 g2 D inp args locs e r1 r2 :
   sp_expr g1 D inp args locs e = r1 -> r1 <> OutOfFuel ->
   sp_expr g2 D inp args locs e = r2 -> r2 <> OutOfFuel -> r1 = r2.
@@ -112,22 +115,53 @@ Lemma dr_body_fst g D inp me args locs rest r ds :
   dr_body g D inp me args locs rest = (r, ds) -> sp_body g D inp args locs rest = r.
 Proof. intros H. rewrite <- (proj2 (proj2 (proj2 (dr_fst_all g))) D inp me args locs rest). now rewrite H. Qed.
 
-(** chaining: a later evaluation from a state whose flag is up keeps it up *)
-Ltac flag_up IH :=
-  left; eapply IH; eauto.
-
-Lemma Post_weaken st st' b (P Q : Prop) : (P -> Q) -> Post st st' b P -> Post st st' b Q.
-Proof. intros PQ [H|(G & H)]; [now left|right]. split; [exact G|]. intros Hb. destruct (H Hb) as (A & B & C). auto. Qed.
-
-Lemma rs_ok_app_same n new rs :
-  rs_ok (S n) rs -> Forall (fun p : nat * rid => fst p = n) new -> rs_ok (S n) (new ++ rs).
+(** what the executor computed fixes the result of any terminating reads evaluation *)
+Lemma align_dr_expr r D inp me args locs e g rc ds :
+  agrees r (fun g => sp_expr g D inp args locs e) -> r <> OutOfFuel -> r <> Err KDeep ->
+  dr_expr g D inp me args locs e = (rc, ds) -> rc <> OutOfFuel -> rc = r.
 Proof.
-  intros R H. induction new as [|[dn rn] new IH]; simpl; [exact R|].
-  apply Forall_cons_iff in H as (Hd & Ht). simpl in Hd. subst dn. split; [lia|]. now apply IH.
+  intros A Hr Hk Hc Hrc. pose proof (dr_expr_fst _ _ _ _ _ _ _ _ _ Hc) as F.
+  destruct r as [v|k|]; simpl in A; [| |congruence].
+  - destruct A as (g1 & A). symmetry. eapply sp_expr_det; eauto; discriminate.
+  - destruct A as [->|(g1 & A)]; [congruence|]. symmetry. eapply sp_expr_det; eauto; discriminate.
+Qed.
+Lemma align_dr_args r D inp me args locs es g rc ds :
+  agrees r (fun g => sp_args g D inp args locs es) -> r <> OutOfFuel -> r <> Err KDeep ->
+  dr_args g D inp me args locs es = (rc, ds) -> rc <> OutOfFuel -> rc = r.
+Proof.
+  intros A Hr Hk Hc Hrc. pose proof (dr_args_fst _ _ _ _ _ _ _ _ _ Hc) as F.
+  destruct r as [v|k|]; simpl in A; [| |congruence].
+  - destruct A as (g1 & A). symmetry. eapply sp_args_det; eauto; discriminate.
+  - destruct A as [->|(g1 & A)]; [congruence|]. symmetry. eapply sp_args_det; eauto; discriminate.
 Qed.
 
-Lemma Post_false st0 st st' (P Q : Prop) : Post st0 st' false P -> Post st st' false Q.
-Proof. intros [H|(G & H)]; [now left|right]. split; [exact G|]. intros Hb; discriminate. Qed.
+Lemma top_clean_mono st st' :
+  s_stack st' = s_stack st -> s_taint st <= s_taint st' -> top_clean st' -> top_clean st.
+Proof. unfold top_clean. intros -> L H. lia. Qed.
+
+Lemma Post_same st ok (cov : Prop) : Good st -> cov -> Post st st ok cov.
+Proof.
+  intros G C. right. split; [exact G|]. split; [apply le_n|]. intros _ _.
+  split; [apply Grow_refl|]. split; [apply incl_refl|exact C].
+Qed.
+
+Lemma Good_upd_rolled st x : Good st -> Good (upd_rolled st x).
+Proof. intros (HI & C & SO). split; [exact HI|]. split; [|exact SO]. constructor; apply C. Qed.
+
+(** a formula whose value is returned but not kept leaves like a failed one *)
+Lemma Good_pop_tainted st i rest :
+  Good st -> s_stack st = i :: rest -> Inv (rollback_frame st 0) -> Good (pop_tainted st).
+Proof. intros G Es HI. unfold pop_tainted. apply Good_upd_rolled. eapply Good_rollback; eauto. Qed.
+
+Lemma pop_tainted_taint st i rest : s_stack st = i :: rest -> s_taint (pop_tainted st) = List.length rest.
+Proof. intros Es. unfold pop_tainted. exact (rollback_frame_taint st i rest 0 Es). Qed.
+Lemma pop_tainted_stack st i rest : s_stack st = i :: rest -> s_stack (pop_tainted st) = rest.
+Proof.
+  intros Es. unfold pop_tainted. change (s_stack (upd_rolled (rollback_frame st 0) (s_rolled st))) with (s_stack (rollback_frame st 0)).
+  destruct (rollback_frame_fields st 0) as (_ & _ & K & _). rewrite K, Es. reflexivity.
+Qed.
+Lemma pop_tainted_reent st : s_reent (pop_tainted st) = s_reent st.
+Proof. unfold pop_tainted. exact (rollback_frame_reent st 0). Qed.
 
 (** * The main induction *)
 Lemma sim2_all : forall f, sim2_expr f /\ sim2_args f /\ sim2_node f /\ sim2_formula f /\ sim2_body f.
@@ -148,34 +182,42 @@ Proof.
   assert (MB := proj2 (proj2 (proj2 (proj2 (reent_mono_all f))))).
   split; [|split; [|split; [|split]]].
   - (* ---------------- expressions ---------------- *)
-    intros st args locs line e r st' me d H Hr HG Hok Hre HC.
+    intros st args locs line e r st' me d H Hr HG Hre HC.
     destruct e; simpl in H.
-    + (* EConst *) inversion H; subst. right. split; [exact HG|]. intros _.
-      split; [apply Grow_refl|]. split; [apply incl_refl|].
+    + inversion H; subst. apply Post_same; [exact HG|].
       intros g r' ds Hd _. destruct g; simpl in Hd; inversion Hd; constructor.
-    + inversion H; subst. right. split; [exact HG|]. intros _.
-      split; [apply Grow_refl|]. split; [apply incl_refl|].
+    + inversion H; subst. apply Post_same; [exact HG|].
       intros g r' ds Hd _. destruct g; simpl in Hd; inversion Hd; constructor.
-    + inversion H; subst. right. split; [exact HG|]. intros _.
-      split; [apply Grow_refl|]. split; [apply incl_refl|].
+    + inversion H; subst. apply Post_same; [exact HG|].
       intros g r' ds Hd _. destruct g; simpl in Hd; inversion Hd; constructor.
     + (* EBin *)
       destruct (eval_expr f st args locs line e1) as [r1 st1] eqn:E1.
       assert (Hr1 : r1 <> OutOfFuel) by (intros ->; inversion H; subst; congruence).
       destruct (SE _ _ _ _ _ _ _ E1 Hr1 (proj1 HG)) as (I1 & F1 & A1).
-      pose proof (IHe _ _ _ _ _ _ _ me d E1 Hr1 HG Hok Hre HC) as P1.
-      destruct r1 as [va|k|]; [|inversion H; subst; exact (Post_false _ _ _ _ _ P1)|congruence].
+      pose proof (IHe _ _ _ _ _ _ _ me d E1 Hr1 HG Hre HC) as P1.
+      destruct r1 as [va|k|]; [| |congruence].
+      2:{ inversion H; subst. destruct P1 as [P1|(G1 & T1 & P1)]; [now left|right].
+          split; [exact G1|]. split; [exact T1|]. intros Hok Hc. destruct (P1 Hok Hc) as (W1 & S1 & C1).
+          split; [exact W1|]. split; [exact S1|].
+          intros g r' ds Hd Hr'. destruct g; [simpl in Hd; inversion Hd; congruence|]. simpl in Hd.
+          destruct (dr_expr g (defs_of st) (input_data st) me args locs e1) as [ra d1] eqn:Da.
+          assert (Hra : ra <> OutOfFuel) by (intros ->; inversion Hd; congruence).
+          pose proof (align_dr_expr _ _ _ _ _ _ _ _ _ _ A1 ltac:(discriminate) Hok Da Hra) as ->.
+          inversion Hd; subst. eapply C1; eauto. }
       destruct (eval_expr f st1 args locs line e2) as [r2 st2] eqn:E2.
       assert (Hr2 : r2 <> OutOfFuel) by (intros ->; inversion H; subst; congruence).
       assert (Hst : st' = st2) by (destruct r2; inversion H; reflexivity). subst st2.
       destruct (s_reent st1) eqn:R1; [left; eapply ME; eauto|].
-      destruct P1 as [P1|(G1 & P1)]; [congruence|].
-      destruct (P1 eq_refl) as (W1 & S1 & C1).
-      pose proof (IHe _ _ _ _ _ _ _ me d E2 Hr2 G1 (defs_ok_frame _ _ F1 Hok) R1 (Ctx_frame _ _ _ _ F1 HC)) as P2.
-      destruct P2 as [P2|(G2 & P2)]; [now left|right]. split; [exact G2|].
-      intros Hv. assert (Hv2 : is_val r2 = true).
-      { destruct r2; [reflexivity|inversion H; subst; discriminate|congruence]. }
-      destruct (P2 Hv2) as (W2 & S2 & C2).
+      destruct P1 as [P1|(G1 & T1 & P1)]; [congruence|].
+      destruct (SE _ _ _ _ _ _ _ E2 Hr2 I1) as (I2 & F2 & A2).
+      pose proof (IHe _ _ _ _ _ _ _ me d E2 Hr2 G1 R1 (Ctx_frame _ _ _ _ F1 HC)) as P2.
+      destruct P2 as [P2|(G2 & T2 & P2)]; [now left|right]. split; [exact G2|]. split; [lia|].
+      intros Hok Hc.
+      assert (Hok2 : not_deep r2).
+      { intros ->. inversion H; subst. now apply Hok. }
+      destruct (P2 Hok2 Hc) as (W2 & S2 & C2).
+      assert (Hc1 : top_clean st1) by (eapply top_clean_mono; [exact (proj1 (proj2 F2))|exact T2|exact Hc]).
+      destruct (P1 ltac:(discriminate) Hc1) as (W1 & S1 & C1).
       split; [eapply Grow_trans; eauto|]. split; [eapply incl_tran; eauto|].
       destruct (frame_defs _ _ F1) as (D1 & Q1). rewrite D1, Q1, (nc_frame _ _ F1) in C2.
       intros g r' ds Hd Hr'. destruct g; [simpl in Hd; inversion Hd; congruence|]. simpl in Hd.
@@ -183,7 +225,7 @@ Proof.
       assert (Hra : ra <> OutOfFuel) by (intros ->; inversion Hd; congruence).
       pose proof (C1 _ _ _ Da Hra) as K1.
       pose proof (Forall_cov_grow _ _ _ _ _ _ W2 S2 K1) as K1'.
-      destruct ra as [va'|k'|]; [|inversion Hd; subst; exact K1'|congruence].
+      pose proof (align_dr_expr _ _ _ _ _ _ _ _ _ _ A1 ltac:(discriminate) ltac:(discriminate) Da Hra) as ->.
       destruct (dr_expr g (defs_of st) (input_data st) me args locs e2) as [rb d2] eqn:Db.
       assert (Hrb : rb <> OutOfFuel) by (intros ->; inversion Hd; congruence).
       pose proof (C2 _ _ _ Db Hrb) as K2.
@@ -193,55 +235,109 @@ Proof.
       destruct (eval_expr f st args locs line e1) as [r1 st1] eqn:E1.
       assert (Hr1 : r1 <> OutOfFuel) by (intros ->; inversion H; subst; congruence).
       destruct (SE _ _ _ _ _ _ _ E1 Hr1 (proj1 HG)) as (I1 & F1 & A1).
-      pose proof (IHe _ _ _ _ _ _ _ me d E1 Hr1 HG Hok Hre HC) as P1.
-      destruct r1 as [[z|]|k|]; [| |inversion H; subst; exact (Post_false _ _ _ _ _ P1)|congruence].
-      * assert (Hb : exists eb, eval_expr f st1 args locs line eb = (r, st') /\
-                                eb = (if Z.ltb 0 z then e2 else e3)).
-        { destruct (Z.ltb 0 z); eexists; split; eauto. }
-        destruct Hb as (eb & E2 & Heb).
-        destruct (s_reent st1) eqn:R1; [left; eapply ME; eauto|].
-        destruct P1 as [P1|(G1 & P1)]; [congruence|].
-        destruct (P1 eq_refl) as (W1 & S1 & C1).
-        pose proof (IHe _ _ _ _ _ _ _ me d E2 Hr G1 (defs_ok_frame _ _ F1 Hok) R1 (Ctx_frame _ _ _ _ F1 HC)) as P2.
-        destruct P2 as [P2|(G2 & P2)]; [now left|right]. split; [exact G2|].
-        intros Hv. destruct (P2 Hv) as (W2 & S2 & C2).
-        split; [eapply Grow_trans; eauto|]. split; [eapply incl_tran; eauto|].
-        destruct (frame_defs _ _ F1) as (D1 & Q1). rewrite D1, Q1, (nc_frame _ _ F1) in C2.
+      pose proof (IHe _ _ _ _ _ _ _ me d E1 Hr1 HG Hre HC) as P1.
+      (* the ways of stopping after the condition *)
+      assert (Hstop : forall rr, r1 = rr -> (match rr with Val (VInt _) => False | _ => True end) ->
+                (r, st') = (match rr with Val VNone => Err KType | x => x end, st1) ->
+                Post st st' (not_deep r)
+                  (forall g r' ds, dr_expr g (defs_of st) (input_data st) me args locs (EIfPos e1 e2 e3) = (r', ds) ->
+                     r' <> OutOfFuel -> Forall (cov_pending st' (nearest_cached st (s_stack st)) me d) ds)).
+      { intros rr -> Hn Hq. inversion Hq; subst r st'. clear Hq.
+        destruct P1 as [P1|(G1 & T1 & P1)]; [now left|right].
+        split; [exact G1|]. split; [exact T1|]. intros Hok Hc.
+        assert (Hok1 : not_deep rr).
+        { intros ->. now apply Hok. }
+        destruct (P1 Hok1 Hc) as (W1 & S1 & C1).
+        split; [exact W1|]. split; [exact S1|].
         intros g r' ds Hd Hr'. destruct g; [simpl in Hd; inversion Hd; congruence|]. simpl in Hd.
         destruct (dr_expr g (defs_of st) (input_data st) me args locs e1) as [ra d1] eqn:Da.
-        assert (Hra : ra <> OutOfFuel) by (intros ->; inversion Hd; congruence).
-        pose proof (C1 _ _ _ Da Hra) as K1.
-        pose proof (Forall_cov_grow _ _ _ _ _ _ W2 S2 K1) as K1'.
-        (* the condition has the value the executor saw *)
-        destruct A1 as (g1 & A1).
-        pose proof (sp_expr_det _ _ _ _ _ _ _ _ _ A1 ltac:(discriminate) (dr_expr_fst _ _ _ _ _ _ _ _ _ Da) Hra) as Eq.
-        subst ra.
-        destruct (dr_expr g (defs_of st) (input_data st) me args locs eb) as [rb d2] eqn:Db.
-        assert (Hd' : (rb, d1 ++ d2) = (r', ds)).
-        { subst eb. destruct (Z.ltb 0 z); rewrite Db in Hd; exact Hd. }
-        inversion Hd'; subst.
-        apply Forall_app. split; [exact K1'|]. eapply C2; eauto.
-      * inversion H; subst. destruct P1 as [P1|(G1 & P1)]; [now left|right].
-        split; [exact G1|]. intros Hv. discriminate.
+        assert (Hra : ra <> OutOfFuel).
+        { intros ->. inversion Hd; congruence. }
+        pose proof (align_dr_expr _ _ _ _ _ _ _ _ _ _ A1 Hr1 Hok1 Da Hra) as ->.
+        destruct rr as [[z|]|k|]; [contradiction| | |congruence]; inversion Hd; subst; eapply C1; eauto. }
+      destruct r1 as [[z|]|k|]; [| | |congruence].
+      2:{ apply (Hstop (Val VNone) eq_refl I). now rewrite <- H. }
+      2:{ apply (Hstop (Err k) eq_refl I). now rewrite <- H. }
+      clear Hstop.
+      assert (Hb : exists eb, eval_expr f st1 args locs line eb = (r, st') /\
+                              eb = (if Z.ltb 0 z then e2 else e3)).
+      { destruct (Z.ltb 0 z); eexists; split; eauto. }
+      destruct Hb as (eb & E2 & Heb).
+      destruct (s_reent st1) eqn:R1; [left; eapply ME; eauto|].
+      destruct P1 as [P1|(G1 & T1 & P1)]; [congruence|].
+      destruct (SE _ _ _ _ _ _ _ E2 Hr I1) as (I2 & F2 & A2).
+      pose proof (IHe _ _ _ _ _ _ _ me d E2 Hr G1 R1 (Ctx_frame _ _ _ _ F1 HC)) as P2.
+      destruct P2 as [P2|(G2 & T2 & P2)]; [now left|right]. split; [exact G2|]. split; [lia|].
+      intros Hok Hc. destruct (P2 Hok Hc) as (W2 & S2 & C2).
+      assert (Hc1 : top_clean st1) by (eapply top_clean_mono; [exact (proj1 (proj2 F2))|exact T2|exact Hc]).
+      destruct (P1 ltac:(discriminate) Hc1) as (W1 & S1 & C1).
+      split; [eapply Grow_trans; eauto|]. split; [eapply incl_tran; eauto|].
+      destruct (frame_defs _ _ F1) as (D1 & Q1). rewrite D1, Q1, (nc_frame _ _ F1) in C2.
+      intros g r' ds Hd Hr'. destruct g; [simpl in Hd; inversion Hd; congruence|]. simpl in Hd.
+      destruct (dr_expr g (defs_of st) (input_data st) me args locs e1) as [ra d1] eqn:Da.
+      assert (Hra : ra <> OutOfFuel) by (intros ->; inversion Hd; congruence).
+      pose proof (C1 _ _ _ Da Hra) as K1.
+      pose proof (Forall_cov_grow _ _ _ _ _ _ W2 S2 K1) as K1'.
+      pose proof (align_dr_expr _ _ _ _ _ _ _ _ _ _ A1 ltac:(discriminate) ltac:(discriminate) Da Hra) as ->.
+      destruct (dr_expr g (defs_of st) (input_data st) me args locs eb) as [rb d2] eqn:Db.
+      assert (Hd' : (rb, d1 ++ d2) = (r', ds)).
+      { subst eb. destruct (Z.ltb 0 z); rewrite Db in Hd; exact Hd. }
+      inversion Hd'; subst.
+      apply Forall_app. split; [exact K1'|]. eapply C2; eauto.
     + (* ECall *)
       destruct (eval_args f st args locs line args0) as [r1 st1] eqn:E1.
       assert (Hr1 : r1 <> OutOfFuel) by (intros ->; inversion H; subst; congruence).
       destruct (SA _ _ _ _ _ _ _ E1 Hr1 (proj1 HG)) as (I1 & F1 & A1).
-      pose proof (IHa _ _ _ _ _ _ _ me d E1 Hr1 HG Hok Hre HC) as P1.
-      destruct r1 as [vs|k|]; [|inversion H; subst; exact (Post_false _ _ _ _ _ P1)|congruence].
+      pose proof (IHa _ _ _ _ _ _ _ me d E1 Hr1 HG Hre HC) as P1.
       assert (Hc : s_cells st1 = s_cells st) by (apply static_cells, F1). rewrite Hc in H.
+      (* stopping after the arguments: failed arguments, unknown cells, arguments that do not bind *)
+      assert (Hstop : st' = st1 -> (not_deep r -> not_deep r1) ->
+                (forall g r' ds, dr_expr (S g) (defs_of st) (input_data st) me args locs (ECall c args0) = (r', ds) ->
+                   r' <> OutOfFuel -> not_deep r ->
+                   exists ra, dr_args g (defs_of st) (input_data st) me args locs args0 = (ra, ds) /\ ra <> OutOfFuel) ->
+                Post st st' (not_deep r)
+                  (forall g r' ds, dr_expr g (defs_of st) (input_data st) me args locs (ECall c args0) = (r', ds) ->
+                     r' <> OutOfFuel -> Forall (cov_pending st' (nearest_cached st (s_stack st)) me d) ds)).
+      { intros -> Hnd Hsh. destruct P1 as [P1|(G1 & T1 & P1)]; [now left|right].
+        split; [exact G1|]. split; [exact T1|]. intros Hok Hcl.
+        destruct (P1 (Hnd Hok) Hcl) as (W1 & S1 & C1).
+        split; [exact W1|]. split; [exact S1|].
+        intros g r' ds Hd Hr'. destruct g; [simpl in Hd; inversion Hd; congruence|].
+        destruct (Hsh _ _ _ Hd Hr' Hok) as (ra & Da & Hra). eapply C1; eauto. }
+      destruct r1 as [vs|k|]; [| |congruence].
+      2:{ apply Hstop; [inversion H; reflexivity|intros Hk E; inversion E; subst; apply Hk; inversion H; reflexivity|].
+          intros g r' ds Hd Hr' Hok. simpl in Hd.
+          destruct (dr_args g (defs_of st) (input_data st) me args locs args0) as [ra d1] eqn:Da.
+          assert (Hra : ra <> OutOfFuel) by (intros ->; inversion Hd; congruence).
+          assert (Hk1 : @Err (list val) k <> Err KDeep).
+          { intros E; inversion E; subst. apply Hok. inversion H; reflexivity. }
+          pose proof (align_dr_args _ _ _ _ _ _ _ _ _ _ A1 ltac:(discriminate) Hk1 Da Hra) as ->.
+          inversion Hd; subst. eexists; split; [reflexivity|discriminate]. }
       destruct (lookup_cell (s_cells st) c) as [cl|] eqn:El.
-      2:{ inversion H; subst. destruct P1 as [P1|(G1 & P1)]; [now left|right].
-          split; [exact G1|]. intros Hv; discriminate. }
+      2:{ apply Hstop; [inversion H; reflexivity|intros _; discriminate|].
+          intros g r' ds Hd Hr' Hok. simpl in Hd.
+          destruct (dr_args g (defs_of st) (input_data st) me args locs args0) as [ra d1] eqn:Da.
+          assert (Hra : ra <> OutOfFuel) by (intros ->; inversion Hd; congruence).
+          pose proof (align_dr_args _ _ _ _ _ _ _ _ _ _ A1 ltac:(discriminate) ltac:(discriminate) Da Hra) as ->.
+          unfold defs_of in Hd; simpl in Hd. rewrite El in Hd.
+          inversion Hd; subst. eexists; split; [reflexivity|discriminate]. }
       destruct (bind_pos cl vs) as [k|] eqn:Eb.
-      2:{ inversion H; subst. destruct P1 as [P1|(G1 & P1)]; [now left|right].
-          split; [exact G1|]. intros Hv; discriminate. }
+      2:{ apply Hstop; [inversion H; reflexivity|intros _; discriminate|].
+          intros g r' ds Hd Hr' Hok. simpl in Hd.
+          destruct (dr_args g (defs_of st) (input_data st) me args locs args0) as [ra d1] eqn:Da.
+          assert (Hra : ra <> OutOfFuel) by (intros ->; inversion Hd; congruence).
+          pose proof (align_dr_args _ _ _ _ _ _ _ _ _ _ A1 ltac:(discriminate) ltac:(discriminate) Da Hra) as ->.
+          unfold defs_of in Hd; simpl in Hd. rewrite El, Eb in Hd.
+          inversion Hd; subst. eexists; split; [reflexivity|discriminate]. }
+      clear Hstop.
       destruct (s_reent st1) eqn:R1; [left; eapply MN; eauto|].
-      destruct P1 as [P1|(G1 & P1)]; [congruence|].
-      destruct (P1 eq_refl) as (W1 & S1 & C1).
-      pose proof (IHn _ _ _ _ _ me d H Hr G1 (defs_ok_frame _ _ F1 Hok) R1 (Ctx_depth _ _ _ (Ctx_frame _ _ _ _ F1 HC))) as P2.
-      destruct P2 as [P2|(G2 & P2)]; [now left|right]. split; [exact G2|].
-      intros Hv. destruct (P2 Hv) as (W2 & S2 & C2).
+      destruct P1 as [P1|(G1 & T1 & P1)]; [congruence|].
+      destruct (SN _ _ _ _ _ H Hr I1) as (I2 & F2 & A2).
+      pose proof (IHn _ _ _ _ _ me d H Hr G1 R1 (Ctx_depth _ _ _ (Ctx_frame _ _ _ _ F1 HC))) as P2.
+      destruct P2 as [P2|(G2 & T2 & P2)]; [now left|right]. split; [exact G2|]. split; [lia|].
+      intros Hok Hcl. destruct (P2 Hok Hcl) as (W2 & S2 & C2).
+      assert (Hc1 : top_clean st1) by (eapply top_clean_mono; [exact (proj1 (proj2 F2))|exact T2|exact Hcl]).
+      destruct (P1 ltac:(discriminate) Hc1) as (W1 & S1 & C1).
       split; [eapply Grow_trans; eauto|]. split; [eapply incl_tran; eauto|].
       destruct (frame_defs _ _ F1) as (D1 & Q1). rewrite D1, Q1, (nc_frame _ _ F1) in C2.
       intros g r' ds Hd Hr'. destruct g; [simpl in Hd; inversion Hd; congruence|]. simpl in Hd.
@@ -249,15 +345,13 @@ Proof.
       assert (Hra : ra <> OutOfFuel) by (intros ->; inversion Hd; congruence).
       pose proof (C1 _ _ _ Da Hra) as K1.
       pose proof (Forall_cov_grow _ _ _ _ _ _ W2 S2 K1) as K1'.
-      destruct A1 as (g1 & A1).
-      pose proof (sp_args_det _ _ _ _ _ _ _ _ _ A1 ltac:(discriminate) (dr_args_fst _ _ _ _ _ _ _ _ _ Da) Hra) as Eq.
-      subst ra. unfold defs_of in Hd; simpl in Hd. rewrite El, Eb in Hd.
+      pose proof (align_dr_args _ _ _ _ _ _ _ _ _ _ A1 ltac:(discriminate) ltac:(discriminate) Da Hra) as ->.
+      unfold defs_of in Hd; simpl in Hd. rewrite El, Eb in Hd.
       destruct (dr_node g (s_cells st, s_refs st) (input_data st) (c, k)) as [rb d2] eqn:Db.
       inversion Hd; subst.
       apply Forall_app. split; [exact K1'|]. eapply C2; eauto.
     + (* ERefN *)
-      inversion H; subst. right. split; [exact HG|]. intros _.
-      split; [apply Grow_refl|]. split; [apply incl_refl|].
+      inversion H; subst. apply Post_same; [exact HG|].
       intros g r' ds Hd _. destruct g; simpl in Hd; inversion Hd; [constructor|].
       constructor; [|constructor]. unfold cov_pending.
       destruct (nearest_cached st' (s_stack st')); [now left|exact I].
@@ -271,38 +365,53 @@ Proof.
            constructor; try (apply C).
            simpl. rewrite Es. simpl. rewrite Nat.sub_0_r. split; [lia|].
            pose proof (cv_refs _ C) as R. rewrite Es in R. exact R.
-        -- intros _. split; [repeat split; try apply incl_refl; auto|].
+        -- split; [apply le_n|]. intros _ _. split; [repeat split; try apply incl_refl; auto|].
            split; [intros p Hp; now right|].
            intros g r' ds Hd _. destruct g; simpl in Hd; [inversion Hd; constructor|].
            unfold defs_of in Hd; simpl in Hd. rewrite El in Hd. inversion Hd; subst.
            constructor; [|constructor]. unfold cov_pending.
            destruct (nearest_cached st (s_stack st)); [|exact I].
            right. simpl. left. rewrite Es. simpl. now rewrite Nat.sub_0_r.
-      * right. split; [exact HG|]. intros Hv; discriminate.
+      * apply Post_same; [exact HG|].
+        intros g r' ds Hd _. destruct g; simpl in Hd; [inversion Hd; constructor|].
+        unfold defs_of in Hd; simpl in Hd. rewrite El in Hd. inversion Hd; constructor.
     + (* ERaise *)
-      inversion H; subst. right. split; [exact HG|]. intros Hv; discriminate.
+      inversion H; subst. apply Post_same; [exact HG|].
+      intros g r' ds Hd _. destruct g; simpl in Hd; inversion Hd; constructor.
   - (* ---------------- argument lists ---------------- *)
-    intros st args locs line es r st' me d H Hr HG Hok Hre HC.
+    intros st args locs line es r st' me d H Hr HG Hre HC.
     destruct es as [|e rest]; simpl in H.
-    + inversion H; subst. right. split; [exact HG|]. intros _.
-      split; [apply Grow_refl|]. split; [apply incl_refl|].
+    + inversion H; subst. apply Post_same; [exact HG|].
       intros g r' ds Hd _. destruct g; simpl in Hd; inversion Hd; constructor.
     + destruct (eval_expr f st args locs line e) as [r1 st1] eqn:E1.
       assert (Hr1 : r1 <> OutOfFuel) by (intros ->; inversion H; subst; congruence).
       destruct (SE _ _ _ _ _ _ _ E1 Hr1 (proj1 HG)) as (I1 & F1 & A1).
-      pose proof (IHe _ _ _ _ _ _ _ me d E1 Hr1 HG Hok Hre HC) as P1.
-      destruct r1 as [v|k|]; [|inversion H; subst; exact (Post_false _ _ _ _ _ P1)|congruence].
+      pose proof (IHe _ _ _ _ _ _ _ me d E1 Hr1 HG Hre HC) as P1.
+      destruct r1 as [v|k|]; [| |congruence].
+      2:{ inversion H; subst. destruct P1 as [P1|(G1 & T1 & P1)]; [now left|right].
+          split; [exact G1|]. split; [exact T1|]. intros Hok Hc.
+          assert (Hok1 : @Err val k <> Err KDeep) by (intros E; inversion E; subst; now apply Hok).
+          destruct (P1 Hok1 Hc) as (W1 & S1 & C1).
+          split; [exact W1|]. split; [exact S1|].
+          intros g r' ds Hd Hr'. destruct g; [simpl in Hd; inversion Hd; congruence|]. simpl in Hd.
+          destruct (dr_expr g (defs_of st) (input_data st) me args locs e) as [ra d1] eqn:Da.
+          assert (Hra : ra <> OutOfFuel) by (intros ->; inversion Hd; congruence).
+          pose proof (align_dr_expr _ _ _ _ _ _ _ _ _ _ A1 ltac:(discriminate) Hok1 Da Hra) as ->.
+          inversion Hd; subst. eapply C1; eauto. }
       destruct (eval_args f st1 args locs line rest) as [r2 st2] eqn:E2.
       assert (Hr2 : r2 <> OutOfFuel) by (intros ->; inversion H; subst; congruence).
       assert (Hst : st' = st2) by (destruct r2; inversion H; reflexivity). subst st2.
       destruct (s_reent st1) eqn:R1; [left; eapply MA; eauto|].
-      destruct P1 as [P1|(G1 & P1)]; [congruence|].
-      destruct (P1 eq_refl) as (W1 & S1 & C1).
-      pose proof (IHa _ _ _ _ _ _ _ me d E2 Hr2 G1 (defs_ok_frame _ _ F1 Hok) R1 (Ctx_frame _ _ _ _ F1 HC)) as P2.
-      destruct P2 as [P2|(G2 & P2)]; [now left|right]. split; [exact G2|].
-      intros Hv. assert (Hv2 : is_val r2 = true).
-      { destruct r2; [reflexivity|inversion H; subst; discriminate|congruence]. }
-      destruct (P2 Hv2) as (W2 & S2 & C2).
+      destruct P1 as [P1|(G1 & T1 & P1)]; [congruence|].
+      destruct (SA _ _ _ _ _ _ _ E2 Hr2 I1) as (I2 & F2 & A2).
+      pose proof (IHa _ _ _ _ _ _ _ me d E2 Hr2 G1 R1 (Ctx_frame _ _ _ _ F1 HC)) as P2.
+      destruct P2 as [P2|(G2 & T2 & P2)]; [now left|right]. split; [exact G2|]. split; [lia|].
+      intros Hok Hc.
+      assert (Hok2 : not_deep r2).
+      { intros ->. inversion H; subst. now apply Hok. }
+      destruct (P2 Hok2 Hc) as (W2 & S2 & C2).
+      assert (Hc1 : top_clean st1) by (eapply top_clean_mono; [exact (proj1 (proj2 F2))|exact T2|exact Hc]).
+      destruct (P1 ltac:(discriminate) Hc1) as (W1 & S1 & C1).
       split; [eapply Grow_trans; eauto|]. split; [eapply incl_tran; eauto|].
       destruct (frame_defs _ _ F1) as (D1 & Q1). rewrite D1, Q1, (nc_frame _ _ F1) in C2.
       intros g r' ds Hd Hr'. destruct g; [simpl in Hd; inversion Hd; congruence|]. simpl in Hd.
@@ -310,16 +419,18 @@ Proof.
       assert (Hra : ra <> OutOfFuel) by (intros ->; inversion Hd; congruence).
       pose proof (C1 _ _ _ Da Hra) as K1.
       pose proof (Forall_cov_grow _ _ _ _ _ _ W2 S2 K1) as K1'.
-      destruct ra as [va'|k'|]; [|inversion Hd; subst; exact K1'|congruence].
+      pose proof (align_dr_expr _ _ _ _ _ _ _ _ _ _ A1 ltac:(discriminate) ltac:(discriminate) Da Hra) as ->.
       destruct (dr_args g (defs_of st) (input_data st) me args locs rest) as [rb d2] eqn:Db.
       assert (Hrb : rb <> OutOfFuel) by (intros ->; inversion Hd; congruence).
       pose proof (C2 _ _ _ Db Hrb) as K2.
       assert (ds = d1 ++ d2) by (destruct rb; inversion Hd; reflexivity). subst ds.
       apply Forall_app. split; assumption.
   - (* ---------------- element requested from a formula ---------------- *)
-    intros st line i r st' me d H Hr HG Hok Hre Hdd. simpl in H.
+    intros st line i r st' me d H Hr HG Hre Hdd. simpl in H.
     destruct (lookup_cell (s_cells st) (fst i)) as [cl|] eqn:El.
-    2:{ inversion H; subst. right. split; [exact HG|]. intros Hv; discriminate. }
+    2:{ inversion H; subst. apply Post_same; [exact HG|].
+        intros g r' ds Hd _. destruct g; simpl in Hd; [inversion Hd; constructor|].
+        unfold defs_of in Hd; simpl in Hd. rewrite El in Hd. inversion Hd; constructor. }
     destruct (if cl_cached cl then lookup_data (s_data st) i else None) as [v|] eqn:Eh.
     + (* hit *)
       destruct (cl_cached cl) eqn:Ec; [|discriminate].
@@ -327,8 +438,8 @@ Proof.
       destruct HG as (HI & C & SO).
       destruct (nearest_cached st (s_stack st)) as [jc|] eqn:En; inversion H; subst.
       * right. pose proof (Cov_hit _ _ _ HI C SO Hhas En) as C'.
-        split; [split; [exact HI|split; [exact C'|exact SO]]|].
-        intros _.
+        split; [split; [exact HI|split; [exact C'|exact SO]]|]. split; [apply le_n|].
+        intros _ _.
         assert (G : Grow st (g_add_edge st (node_of i) (node_of jc))).
         { repeat split; try apply incl_refl; auto.
           - intros e He. apply g_add_edge_edges. now right.
@@ -343,21 +454,23 @@ Proof.
         subst ds. constructor; [|constructor]. simpl. split.
         -- apply g_add_edge_edges. now left.
         -- exact Hhas.
-      * right. split; [split; [exact HI|split; [exact C|exact SO]]|]. intros _.
-        split; [apply Grow_refl|]. split; [apply incl_refl|].
+      * apply Post_same; [split; [exact HI|split; [exact C|exact SO]]|].
         intros g r' ds Hd Hr'. eapply Forall_impl; [|apply Forall_forall; intros x _; exact I].
         intros x _. exact I.
     + eapply IHf; eauto.
   - (* ---------------- formula execution ---------------- *)
-    intros st cl i r st' me d H Hr HG Hok Hre Hdd El Em. pose proof H as H0. simpl in H.
+    intros st cl i r st' me d H Hr HG Hre Hdd El Em. pose proof H as H0. simpl in H.
     destruct (Nat.ltb (s_maxdepth st) (List.length (s_stack st))).
-    { inversion H; subst. right. split; [exact HG|]. intros Hv; discriminate. }
+    { inversion H; subst. right. split; [exact HG|]. split; [apply le_n|]. intros Hok. now elim Hok. }
     set (st1 := upd_reent (upd_log (upd_stack st (i :: s_stack st)) (i :: s_log st))
                           (s_reent st || mem_item i (s_stack st))) in *.
     destruct (exec_body f st1 (snd i) [] (cl_body cl) (cl_body cl) 0) as [[rb st2] ln] eqn:Eb.
     assert (Hrb : rb <> OutOfFuel) by (intros ->; inversion H; subst; congruence).
     assert (Hflag2 : s_reent st2 = true -> s_reent st' = true).
     { intros F2. destruct rb as [v|k|]; [|inversion H; subst; now rewrite rollback_frame_reent|congruence].
+      destruct (tainted st2).
+      { destruct v as [z|]; [|destruct (cl_allow_none cl)]; inversion H; subst;
+          rewrite ?pop_tainted_reent, ?rollback_frame_reent; exact F2. }
       destruct (cl_cached cl).
       - unfold store_value in H.
         destruct v as [z|]; [|destruct (cl_allow_none cl)]; inversion H; subst;
@@ -371,10 +484,10 @@ Proof.
     assert (Hnin : ~ In i (s_stack st)) by (intros Hc; apply mem_item_In in Hc; congruence).
     assert (HC1 : Ctx st1 (fst i) (List.length (s_stack st))).
     { exists (snd i), (s_stack st). split; [destruct i; reflexivity|reflexivity]. }
-    assert (Hbok : body_ok (cl_body cl) = true) by (eapply Hok; eauto).
-    pose proof (IHb _ _ _ _ _ _ _ _ _ (fst i) (List.length (s_stack st)) Eb Hrb G1 Hok R1 HC1 Hbok) as PB.
+    pose proof (IHb _ _ _ _ _ _ _ _ _ (fst i) (List.length (s_stack st)) Eb Hrb G1 R1 HC1) as PB.
     destruct (s_reent st2) eqn:R2; [left; now apply Hflag2|].
-    destruct PB as [PB|(G2 & PB)]; [congruence|].
+    destruct PB as [PB|(G2 & T2 & PB)]; [congruence|].
+    change (s_taint st1) with (s_taint st) in T2.
     (* facts from the first simulation *)
     destruct (proj1 (proj2 (proj2 (proj2 (sim_all (S f))))) _ _ _ _ _ H0 Hr (proj1 HG) El Em) as (I' & F' & A').
     destruct (SB _ _ _ _ _ _ _ _ _ Eb Hrb (proj1 G1)) as (I2 & F2 & A2).
@@ -391,13 +504,34 @@ Proof.
       change (is_cached st1 (fst i)) with (is_cached st (fst i)).
       unfold is_cached. rewrite El.
       destruct (cl_cached cl); [reflexivity|]. apply nearest_cached_cells. reflexivity. }
-    assert (Rollback : forall ln0, Inv (rollback_frame st2 ln0) ->
-              Post st (rollback_frame st2 ln0) false
-                (forall g r' ds, dr_node g (defs_of st) (input_data st) i = (r', ds) -> r' <> OutOfFuel ->
-                   Forall (cov_pending (rollback_frame st2 ln0) (nearest_cached st (s_stack st)) me d) ds)).
-    { intros ln0 HI0. right. split; [eapply Good_rollback; eauto|]. intros Hv; discriminate. }
+    pose proof (cv_taint _ (proj1 (proj2 HG))) as Ht0.
+    (* leaving without keeping anything: the frames below are tainted, nothing is owed *)
+    assert (Leave : forall s', Good s' -> s_taint s' = List.length (s_stack st) -> s_stack s' = s_stack st ->
+              forall cov, Post st s' (not_deep r) cov).
+    { intros s' Gs Ts Ks cov. right. split; [exact Gs|]. split; [lia|].
+      intros _ Hc. unfold top_clean in Hc. rewrite Ts, Ks in Hc. lia. }
+    assert (Rollback : forall ln0, Inv (rollback_frame st2 ln0) -> forall cov, Post st (rollback_frame st2 ln0) (not_deep r) cov).
+    { intros ln0 HI0 cov. apply Leave.
+      - eapply Good_rollback; eauto.
+      - exact (rollback_frame_taint st2 i (s_stack st) ln0 K2).
+      - destruct (rollback_frame_fields st2 ln0) as (_ & _ & K & _). rewrite K, K2. reflexivity. }
     destruct rb as [v|k|]; [|inversion H; subst; apply Rollback; exact I'|congruence].
-    destruct (PB eq_refl) as (W2 & RS2 & CB).
+    destruct (tainted st2) eqn:Et.
+    { (* returned, not kept *)
+      assert (Hcase : (r, st') = (Err KNone, rollback_frame st2 0) \/ (r, st') = (Val v, pop_tainted st2)).
+      { destruct v; [right; now rewrite <- H|]. destruct (cl_allow_none cl); [right|left]; now rewrite <- H. }
+      destruct Hcase as [H'|H']; inversion H'; subst r st'; clear H' H.
+      - apply Rollback. exact I'.
+      - apply Leave.
+        + eapply Good_pop_tainted; [exact G2|exact K2|].
+          unfold pop_tainted in I'. destruct I' as (J1 & J2). split; [exact J1|exact J2].
+        + exact (pop_tainted_taint st2 i (s_stack st) K2).
+        + exact (pop_tainted_stack st2 i (s_stack st) K2). }
+    assert (Hclean2 : top_clean st2).
+    { unfold tainted in Et. apply Nat.leb_gt in Et. exact Et. }
+    assert (Htn : s_taint st2 <= List.length (s_stack st)).
+    { unfold top_clean in Hclean2. rewrite K2 in Hclean2. simpl in Hclean2. lia. }
+    destruct (PB ltac:(discriminate) Hclean2) as (W2 & RS2 & CB).
     rewrite Hnc1 in CB. change (defs_of st1) with (defs_of st) in CB.
     change (input_data st1) with (input_data st) in CB.
     destruct A2 as (gb & A2).
@@ -423,9 +557,9 @@ Proof.
         assert (Hown : dr_own gb (defs_of st2) (input_data st2) i = (Val v, dsb)).
         { unfold dr_own. rewrite (static_defs _ _ S2), Q2. unfold defs_of; simpl. rewrite El.
           unfold defs_of in Dbb; simpl in Dbb. rewrite Dbb. now rewrite Hnc. }
-        destruct (Good_pop_cached st2 i (s_stack st) v gb dsb G2 K2 Hnin Hc2 Hnone2 Hni2 Hown CovB I')
+        destruct (Good_pop_cached st2 i (s_stack st) v gb dsb G2 K2 Hnin Hc2 Htn Hnone2 Hni2 Hown CovB I')
           as (G' & W' & Hhas' & Hedge).
-        right. split; [exact G'|]. intros _.
+        right. split; [exact G'|]. split; [rewrite pop_frame_taint; exact T2|]. intros _ _.
         split; [eapply Grow_trans; [exact W2|exact W']|].
         split.
         { intros p Hp. apply (pop_frame_refstack_keep _ i (s_stack st)); [exact K2| |now apply Hrsst].
@@ -449,8 +583,8 @@ Proof.
       { apply Rollback. exact I'. }
       assert (Hc2 : is_cached st2 (fst i) = false).
       { unfold is_cached. rewrite Hcells2, El. exact Ec. }
-      destruct (Good_pop_uncached st2 i (s_stack st) G2 K2 Hc2 I') as (G' & W' & Hcall).
-      right. split; [exact G'|]. intros _.
+      destruct (Good_pop_uncached st2 i (s_stack st) G2 K2 Hc2 Htn I') as (G' & W' & Hcall).
+      right. split; [exact G'|]. split; [rewrite pop_frame_taint; exact T2|]. intros _ _.
       split; [eapply Grow_trans; [exact W2|exact W']|].
       split.
       { intros p Hp. apply (pop_frame_refstack_keep _ i (s_stack st)); [exact K2| |now apply Hrsst].
@@ -479,25 +613,33 @@ Proof.
         -- intros jc En. apply (Hcall jc). now rewrite Hnc2.
         -- exact Hx.
   - (* ---------------- statements ---------------- *)
-    intros st args locs whole rest idx r st' ln me d H Hr HG Hok Hre HC Hbok.
+    intros st args locs whole rest idx r st' ln me d H Hr HG Hre HC.
     destruct rest as [|s more]; simpl in H.
-    + inversion H; subst. right. split; [exact HG|]. intros _.
-      split; [apply Grow_refl|]. split; [apply incl_refl|].
+    + inversion H; subst. apply Post_same; [exact HG|].
       intros g r' ds Hd _. destruct g; simpl in Hd; inversion Hd; constructor.
-    + simpl in Hbok. apply andb_true_iff in Hbok as (Hsok & Hmore).
-      destruct s as [e|e h].
+    + destruct s as [e|e h].
       * (* SAssign *)
         destruct (eval_expr f st args locs (stmt_line whole idx) e) as [r1 st1] eqn:E1.
         assert (Hr1 : r1 <> OutOfFuel) by (intros ->; inversion H; subst; congruence).
         destruct (SE _ _ _ _ _ _ _ E1 Hr1 (proj1 HG)) as (I1 & F1 & A1).
-        pose proof (IHe _ _ _ _ _ _ _ me d E1 Hr1 HG Hok Hre HC) as P1.
-        destruct r1 as [v|k|]; [|inversion H; subst; exact (Post_false _ _ _ _ _ P1)|congruence].
+        pose proof (IHe _ _ _ _ _ _ _ me d E1 Hr1 HG Hre HC) as P1.
+        destruct r1 as [v|k|]; [| |congruence].
+        2:{ inversion H; subst. destruct P1 as [P1|(G1 & T1 & P1)]; [now left|right].
+            split; [exact G1|]. split; [exact T1|]. intros Hok Hc. destruct (P1 Hok Hc) as (W1 & S1 & C1).
+            split; [exact W1|]. split; [exact S1|].
+            intros g r' ds Hd Hr'. destruct g; [simpl in Hd; inversion Hd; congruence|]. simpl in Hd.
+            destruct (dr_expr g (defs_of st) (input_data st) me args locs e) as [ra d1] eqn:Da.
+            assert (Hra : ra <> OutOfFuel) by (intros ->; inversion Hd; congruence).
+            pose proof (align_dr_expr _ _ _ _ _ _ _ _ _ _ A1 ltac:(discriminate) Hok Da Hra) as ->.
+            inversion Hd; subst. eapply C1; eauto. }
         destruct (s_reent st1) eqn:R1; [left; eapply MB; eauto|].
-        destruct P1 as [P1|(G1 & P1)]; [congruence|].
-        destruct (P1 eq_refl) as (W1 & S1 & C1).
-        pose proof (IHb _ _ _ _ _ _ _ _ _ me d H Hr G1 (defs_ok_frame _ _ F1 Hok) R1 (Ctx_frame _ _ _ _ F1 HC) Hmore) as P2.
-        destruct P2 as [P2|(G2 & P2)]; [now left|right]. split; [exact G2|].
-        intros Hv. destruct (P2 Hv) as (W2 & S2 & C2).
+        destruct P1 as [P1|(G1 & T1 & P1)]; [congruence|].
+        destruct (SB _ _ _ _ _ _ _ _ _ H Hr I1) as (I2 & F2 & A2).
+        pose proof (IHb _ _ _ _ _ _ _ _ _ me d H Hr G1 R1 (Ctx_frame _ _ _ _ F1 HC)) as P2.
+        destruct P2 as [P2|(G2 & T2 & P2)]; [now left|right]. split; [exact G2|]. split; [lia|].
+        intros Hok Hc. destruct (P2 Hok Hc) as (W2 & S2 & C2).
+        assert (Hc1 : top_clean st1) by (eapply top_clean_mono; [exact (proj1 (proj2 F2))|exact T2|exact Hc]).
+        destruct (P1 ltac:(discriminate) Hc1) as (W1 & S1 & C1).
         split; [eapply Grow_trans; eauto|]. split; [eapply incl_tran; eauto|].
         destruct (frame_defs _ _ F1) as (D1 & Q1). rewrite D1, Q1, (nc_frame _ _ F1) in C2.
         intros g r' ds Hd Hr'. destruct g; [simpl in Hd; inversion Hd; congruence|]. simpl in Hd.
@@ -505,122 +647,112 @@ Proof.
         assert (Hra : ra <> OutOfFuel) by (intros ->; inversion Hd; congruence).
         pose proof (C1 _ _ _ Da Hra) as K1.
         pose proof (Forall_cov_grow _ _ _ _ _ _ W2 S2 K1) as K1'.
-        destruct A1 as (g1 & A1).
-        pose proof (sp_expr_det _ _ _ _ _ _ _ _ _ A1 ltac:(discriminate) (dr_expr_fst _ _ _ _ _ _ _ _ _ Da) Hra) as Eq.
-        subst ra.
+        pose proof (align_dr_expr _ _ _ _ _ _ _ _ _ _ A1 ltac:(discriminate) ltac:(discriminate) Da Hra) as ->.
         destruct (dr_body g (defs_of st) (input_data st) me args (locs ++ [v]) more) as [rb d2] eqn:Db.
         inversion Hd; subst.
         apply Forall_app. split; [exact K1'|]. eapply C2; eauto.
-      * (* STry: the tried expression makes no call *)
-        simpl in Hsok.
+      * (* STry *)
         destruct (eval_expr f st args locs (stmt_line whole idx + 1) e) as [r1 st1] eqn:E1.
         assert (Hr1 : r1 <> OutOfFuel) by (intros ->; inversion H; subst; congruence).
         destruct (SE _ _ _ _ _ _ _ E1 Hr1 (proj1 HG)) as (I1 & F1 & A1).
-        destruct (callfree_eval _ _ _ _ _ _ _ _ me Hsok E1) as ((new & Hst1 & Hnew) & CF).
-        destruct HC as (key & restk & Es & Hd0).
-        assert (Hdm : List.length (s_stack st) - 1 = d).
-        { rewrite Es, Hd0. simpl. apply Nat.sub_0_r. }
-        rewrite Hdm in *.
-        (* state after the tried expression: only the reference stack grew, by entries of this frame *)
-        assert (G1 : Good st1).
-        { destruct HG as (HI & C & SO). subst st1. split; [exact HI|]. split; [|exact SO].
-          constructor; try (apply C). simpl.
-          pose proof (cv_refs _ C) as R. rewrite Es in R |- *. simpl in R |- *.
-          assert (Hnew' := Hnew). rewrite Hd0 in Hnew'. now apply rs_ok_app_same. }
-        assert (W1 : Grow st st1) by (subst st1; repeat split; try apply incl_refl; auto).
-        assert (S1 : incl (s_refstack st) (s_refstack st1)).
-        { subst st1. simpl. intros p Hp. apply in_or_app. now right. }
-        assert (R1 : s_reent st1 = false) by (subst st1; exact Hre).
-        assert (HC1 : Ctx st1 me d).
-        { exists key, restk. subst st1. split; [exact Es|exact Hd0]. }
-        assert (Hok1 : defs_ok (s_cells st1)) by (subst st1; exact Hok).
-        assert (Hnc1 : nearest_cached st1 (s_stack st1) = nearest_cached st (s_stack st)).
-        { subst st1. simpl. apply nearest_cached_cells. reflexivity. }
-        assert (Hdf1 : defs_of st1 = defs_of st /\ input_data st1 = input_data st).
-        { subst st1. split; reflexivity. }
-        destruct Hdf1 as (D1 & Q1).
-        (* reads of the tried expression, at any fuel *)
-        assert (C1 : forall g ra d1, dr_expr g (defs_of st) (input_data st) me args locs e = (ra, d1) ->
-                       ra <> OutOfFuel ->
-                       Forall (cov_pending st1 (nearest_cached st (s_stack st)) me d) d1).
-        { intros g ra d1 Da Hra.
-          destruct (CF (defs_of st) (input_data st) eq_refl) as (Cr & Cd).
-          destruct (dr_expr f (defs_of st) (input_data st) me args locs e) as [rf df] eqn:Df.
-          simpl in Cr, Cd. subst rf.
-          destruct (dr_expr_det _ _ _ _ _ _ _ _ _ _ _ _ Df Hr1 Da Hra) as (_ & <-).
-          eapply Forall_impl; [|exact Cd]. intros x Hx. unfold cov_pending.
-          destruct (nearest_cached st (s_stack st)); [|exact I].
-          destruct Hx as [(rr & ->)|(rr & -> & Hin)]; [now left|now right]. }
+        pose proof (IHe _ _ _ _ _ _ _ me d E1 Hr1 HG Hre HC) as P1.
+        destruct (frame_defs _ _ F1) as (D1 & Q1).
         destruct r1 as [v|k|]; [| |congruence].
-        -- pose proof (IHb _ _ _ _ _ _ _ _ _ me d H Hr G1 Hok1 R1 HC1 Hmore) as P2.
-           destruct P2 as [P2|(G2 & P2)]; [now left|right]. split; [exact G2|].
-           intros Hv. destruct (P2 Hv) as (W2 & S2 & C2).
+        -- destruct (s_reent st1) eqn:R1; [left; eapply MB; eauto|].
+           destruct P1 as [P1|(G1 & T1 & P1)]; [congruence|].
+           destruct (SB _ _ _ _ _ _ _ _ _ H Hr I1) as (I2 & F2 & A2).
+           pose proof (IHb _ _ _ _ _ _ _ _ _ me d H Hr G1 R1 (Ctx_frame _ _ _ _ F1 HC)) as P2.
+           destruct P2 as [P2|(G2 & T2 & P2)]; [now left|right]. split; [exact G2|]. split; [lia|].
+           intros Hok Hc. destruct (P2 Hok Hc) as (W2 & S2 & C2).
+           assert (Hc1 : top_clean st1) by (eapply top_clean_mono; [exact (proj1 (proj2 F2))|exact T2|exact Hc]).
+           destruct (P1 ltac:(discriminate) Hc1) as (W1 & S1 & C1).
            split; [eapply Grow_trans; eauto|]. split; [eapply incl_tran; eauto|].
-           rewrite D1, Q1, Hnc1 in C2.
+           rewrite D1, Q1, (nc_frame _ _ F1) in C2.
            intros g r' ds Hd Hr'. destruct g; [simpl in Hd; inversion Hd; congruence|]. simpl in Hd.
            destruct (dr_expr g (defs_of st) (input_data st) me args locs e) as [ra d1] eqn:Da.
            assert (Hra : ra <> OutOfFuel) by (intros ->; inversion Hd; congruence).
            pose proof (Forall_cov_grow _ _ _ _ _ _ W2 S2 (C1 _ _ _ Da Hra)) as K1'.
-           destruct A1 as (g1 & A1).
-           pose proof (sp_expr_det _ _ _ _ _ _ _ _ _ A1 ltac:(discriminate) (dr_expr_fst _ _ _ _ _ _ _ _ _ Da) Hra) as Eq.
-           subst ra.
+           pose proof (align_dr_expr _ _ _ _ _ _ _ _ _ _ A1 ltac:(discriminate) ltac:(discriminate) Da Hra) as ->.
            destruct (dr_body g (defs_of st) (input_data st) me args (locs ++ [v]) more) as [rb d2] eqn:Db.
            inversion Hd; subst.
            apply Forall_app. split; [exact K1'|]. eapply C2; eauto.
         -- destruct (catchable k) eqn:Ek.
-           2:{ inversion H; subst. right. split; [exact G1|]. intros Hv; discriminate. }
+           2:{ inversion H; subst. destruct P1 as [P1|(G1 & T1 & P1)]; [now left|right].
+               split; [exact G1|]. split; [exact T1|]. intros Hok Hc. destruct (P1 Hok Hc) as (W1 & S1 & C1).
+               split; [exact W1|]. split; [exact S1|].
+               intros g r' ds Hd Hr'. destruct g; [simpl in Hd; inversion Hd; congruence|]. simpl in Hd.
+               destruct (dr_expr g (defs_of st) (input_data st) me args locs e) as [ra d1] eqn:Da.
+               assert (Hra : ra <> OutOfFuel) by (intros ->; inversion Hd; congruence).
+               pose proof (align_dr_expr _ _ _ _ _ _ _ _ _ _ A1 ltac:(discriminate) Hok Da Hra) as ->.
+               rewrite Ek in Hd. inversion Hd; subst. eapply C1; eauto. }
+           assert (Hk1 : @Err val k <> Err KDeep) by (intros E; inversion E; subst; discriminate).
            set (st1' := upd_rolled st1 []) in *.
-           assert (G1' : Good st1').
-           { destruct G1 as (HI1 & C1' & SO1). split; [exact HI1|]. split; [|exact SO1].
-             constructor; apply C1'. }
            destruct (eval_expr f st1' args locs (stmt_line whole idx + 3) h) as [r2 st2] eqn:E2.
            assert (Hr2 : r2 <> OutOfFuel) by (intros ->; inversion H; subst; congruence).
-           destruct (SE _ _ _ _ _ _ _ E2 Hr2 (proj1 G1')) as (I2 & F2 & A2).
-           pose proof (IHe _ _ _ _ _ _ _ me d E2 Hr2 G1' Hok1 R1 HC1) as P2.
-           destruct r2 as [v|k2|]; [|inversion H; subst; exact (Post_false _ _ _ _ _ P2)|congruence].
+           assert (Hmono2 : s_reent st2 = true -> s_reent st' = true).
+           { intros X. destruct r2 as [v2|k2|]; [eapply MB; eauto|inversion H; subst; exact X|congruence]. }
+           destruct (s_reent st1) eqn:R1.
+           { left. apply Hmono2. eapply ME; [exact E2|exact R1]. }
+           destruct P1 as [P1|(G1 & T1 & P1)]; [congruence|].
+           assert (G1' : Good st1') by (apply Good_upd_rolled; exact G1).
+           assert (HC1 : Ctx st1' me d) by exact (Ctx_frame _ _ _ _ F1 HC).
+           assert (R1' : s_reent st1' = false) by exact R1.
+           assert (I1' : Inv st1') by exact I1.
+           destruct (SE _ _ _ _ _ _ _ E2 Hr2 I1') as (I2 & F2 & A2).
+           assert (F12 : frame st1 st2) by exact F2.
+           pose proof (IHe _ _ _ _ _ _ _ me d E2 Hr2 G1' R1' HC1) as P2.
+           change (s_taint st1') with (s_taint st1) in P2.
+           assert (Hnc1 : nearest_cached st1' (s_stack st1') = nearest_cached st (s_stack st)).
+           { rewrite <- (nc_frame _ _ F1). change (s_stack st1') with (s_stack st1). apply nearest_cached_cells. reflexivity. }
+           change (defs_of st1') with (defs_of st1) in *. change (input_data st1') with (input_data st1) in *.
+           rewrite D1, Q1 in A2.
+           destruct r2 as [v|k2|]; [| |congruence].
+           2:{ inversion H; subst. destruct P2 as [P2|(G2 & T2 & P2)]; [now left|right].
+               split; [exact G2|]. split; [simpl in T2; lia|]. intros Hok Hc.
+               destruct (P2 Hok Hc) as (W2 & S2 & C2).
+               assert (Hc1 : top_clean st1) by (eapply top_clean_mono; [exact (proj1 (proj2 F12))|exact T2|exact Hc]).
+               destruct (P1 Hk1 Hc1) as (W1 & S1 & C1).
+               split; [eapply Grow_trans; [exact W1|exact W2]|]. split; [eapply incl_tran; [exact S1|exact S2]|].
+               rewrite D1, Q1, Hnc1 in C2.
+               intros g r' ds Hd Hr'. destruct g; [simpl in Hd; inversion Hd; congruence|]. simpl in Hd.
+               destruct (dr_expr g (defs_of st) (input_data st) me args locs e) as [ra d1] eqn:Da.
+               assert (Hra : ra <> OutOfFuel) by (intros ->; inversion Hd; congruence).
+               pose proof (Forall_cov_grow _ _ _ _ _ _ W2 S2 (C1 _ _ _ Da Hra)) as K1'.
+               pose proof (align_dr_expr _ _ _ _ _ _ _ _ _ _ A1 ltac:(discriminate) Hk1 Da Hra) as ->.
+               rewrite Ek in Hd.
+               destruct (dr_expr g (defs_of st) (input_data st) me args locs h) as [rh d2] eqn:Dh.
+               assert (Hrh : rh <> OutOfFuel) by (intros ->; inversion Hd; congruence).
+               pose proof (align_dr_expr _ _ _ _ _ _ _ _ _ _ A2 ltac:(discriminate) Hok Dh Hrh) as ->.
+               inversion Hd; subst.
+               apply Forall_app. split; [exact K1'|]. eapply C2; eauto. }
            destruct (s_reent st2) eqn:R2; [left; eapply MB; eauto|].
-           destruct P2 as [P2|(G2 & P2)]; [congruence|].
-           destruct (P2 eq_refl) as (W2 & S2 & C2).
-           assert (F12 : frame st1' st2) by exact F2.
-           pose proof (IHb _ _ _ _ _ _ _ _ _ me d H Hr G2 (defs_ok_frame _ _ F12 Hok1) R2 (Ctx_frame _ _ _ _ F12 HC1) Hmore) as P3.
-           destruct P3 as [P3|(G3 & P3)]; [now left|right]. split; [exact G3|].
-           intros Hv. destruct (P3 Hv) as (W3 & S3 & C3).
+           destruct P2 as [P2|(G2 & T2 & P2)]; [congruence|].
+           assert (F02 : frame st st2) by (eapply frame_trans; eauto).
+           destruct (SB _ _ _ _ _ _ _ _ _ H Hr I2) as (I3 & F3 & A3).
+           pose proof (IHb _ _ _ _ _ _ _ _ _ me d H Hr G2 R2 (Ctx_frame _ _ _ _ F02 HC)) as P3.
+           destruct P3 as [P3|(G3 & T3 & P3)]; [now left|right]. split; [exact G3|]. split; [simpl in T2; lia|].
+           intros Hok Hc. destruct (P3 Hok Hc) as (W3 & S3 & C3).
+           assert (Hc2 : top_clean st2) by (eapply top_clean_mono; [exact (proj1 (proj2 F3))|exact T3|exact Hc]).
+           destruct (P2 ltac:(discriminate) Hc2) as (W2 & S2 & C2).
+           assert (Hc1 : top_clean st1) by (eapply top_clean_mono; [exact (proj1 (proj2 F12))|exact T2|exact Hc2]).
+           destruct (P1 Hk1 Hc1) as (W1 & S1 & C1).
            split; [eapply Grow_trans; [exact W1|eapply Grow_trans; [exact W2|exact W3]]|].
            split; [eapply incl_tran; [exact S1|eapply incl_tran; [exact S2|exact S3]]|].
-           assert (DQ2 : defs_of st2 = defs_of st /\ input_data st2 = input_data st).
-           { destruct (frame_defs _ _ F12) as (a & b). split; [rewrite a; exact D1|rewrite b; exact Q1]. }
-           destruct DQ2 as (D2 & Q2).
-           assert (Hnc2 : nearest_cached st2 (s_stack st2) = nearest_cached st (s_stack st)).
-           { rewrite (nc_frame _ _ F12). transitivity (nearest_cached st1 (s_stack st1)); [|exact Hnc1].
-             change (s_stack st1') with (s_stack st1). apply nearest_cached_cells. reflexivity. }
-           rewrite D2, Q2, Hnc2 in C3.
-           assert (C2' : forall g r' ds, dr_expr g (defs_of st) (input_data st) me args locs h = (r', ds) ->
-                           r' <> OutOfFuel ->
-                           Forall (cov_pending st2 (nearest_cached st (s_stack st)) me d) ds).
-           { intros g r' ds Hd' Hr''. rewrite <- Hnc1. rewrite <- D1, <- Q1 in Hd'.
-             assert (E' : nearest_cached st1' (s_stack st1') = nearest_cached st1 (s_stack st1)).
-             { change (s_stack st1') with (s_stack st1). apply nearest_cached_cells. reflexivity. }
-             rewrite <- E'. exact (C2 _ _ _ Hd' Hr''). }
+           destruct (frame_defs _ _ F02) as (D2 & Q2).
+           rewrite D2, Q2, (nc_frame _ _ F02) in C3. rewrite D1, Q1, Hnc1 in C2.
            intros g r' ds Hd Hr'. destruct g; [simpl in Hd; inversion Hd; congruence|]. simpl in Hd.
            destruct (dr_expr g (defs_of st) (input_data st) me args locs e) as [ra d1] eqn:Da.
            assert (Hra : ra <> OutOfFuel) by (intros ->; inversion Hd; congruence).
            assert (K1' : Forall (cov_pending st' (nearest_cached st (s_stack st)) me d) d1).
            { eapply Forall_cov_grow; [exact W3|exact S3|].
              eapply Forall_cov_grow; [exact W2|exact S2|]. exact (C1 _ _ _ Da Hra). }
-           assert (A1' : exists g1, sp_expr g1 (defs_of st) (input_data st) args locs e = Err k).
-           { destruct A1 as [->|A1]; [discriminate|exact A1]. }
-           destruct A1' as (g1 & A1').
-           pose proof (sp_expr_det _ _ _ _ _ _ _ _ _ A1' ltac:(discriminate) (dr_expr_fst _ _ _ _ _ _ _ _ _ Da) Hra) as Eq.
-           subst ra. rewrite Ek in Hd.
+           pose proof (align_dr_expr _ _ _ _ _ _ _ _ _ _ A1 ltac:(discriminate) Hk1 Da Hra) as ->.
+           rewrite Ek in Hd.
            destruct (dr_expr g (defs_of st) (input_data st) me args locs h) as [rh d2] eqn:Dh.
            assert (Hrh : rh <> OutOfFuel) by (intros ->; inversion Hd; congruence).
            assert (K2' : Forall (cov_pending st' (nearest_cached st (s_stack st)) me d) d2).
-           { eapply Forall_cov_grow; [exact W3|exact S3|]. eapply C2'; eauto. }
-           destruct A2 as (g2 & A2).
-           change (defs_of st1') with (defs_of st1) in A2. change (input_data st1') with (input_data st1) in A2.
-           rewrite D1, Q1 in A2.
-           pose proof (sp_expr_det _ _ _ _ _ _ _ _ _ A2 ltac:(discriminate) (dr_expr_fst _ _ _ _ _ _ _ _ _ Dh) Hrh) as Eq2.
-           subst rh.
+           { eapply Forall_cov_grow; [exact W3|exact S3|]. eapply C2; eauto. }
+           pose proof (align_dr_expr _ _ _ _ _ _ _ _ _ _ A2 ltac:(discriminate) ltac:(discriminate) Dh Hrh) as ->.
            destruct (dr_body g (defs_of st) (input_data st) me args (locs ++ [v]) more) as [rb d3] eqn:Db.
            inversion Hd; subst.
            apply Forall_app. split; [exact K1'|]. apply Forall_app. split; [exact K2'|]. eapply C3; eauto.
